@@ -118,7 +118,7 @@ def parseCall (t : String) : Option PCall :=
     let form ← (if f == "p" then some Form.plain else if f == "t" then some Form.trySend else if f == "s" then some Form.send else none)
     let arg ← parseArg entry v
     let bops ← parseBOps b
-    let sink ← (if s == "a" then some SinkOut.accept else ((s.drop 1).toString.toNat?).map SinkOut.refuse)
+    let sink ← (if s == "a" || s.startsWith "b" then some SinkOut.accept else ((s.drop 1).toString.toNat?).map SinkOut.refuse)
     pure ⟨entry, form, unhex k, arg, bops, sink⟩
   | _ => none
 
@@ -220,6 +220,25 @@ def runStd (_prop : String) (f : List String) (obsS : String) : Verdict :=
           | .ok _ => none
           | .error e => some (e.prop, e.clause)
         ⟨hex m == obsS, obsS, hex m, vi, ["standalone"], false⟩
+  | _ => bad
+
+/-- `impl Display for MetricValue` against `Val.render` -/
+def runVal (_prop : String) (f : List String) (obsS : String) : Verdict :=
+  match f with
+  | [_, variant, valS] =>
+    let items := listToks valS
+    let v? : Option Val := match variant with
+      | "signed" => valS.toInt?.map Val.signed
+      | "unsigned" => valS.toNat?.map Val.unsigned
+      | "float" => (parseF64Tok valS).map Val.float
+      | "psigned" => (items.mapM String.toInt?).map Val.psigned
+      | "punsigned" => (items.mapM String.toNat?).map Val.punsigned
+      | _ => (items.mapM parseF64Tok).map Val.pfloat
+    match v? with
+    | none => bad
+    | some v =>
+      if obsS == "panic" then ⟨false, "panic", hex v.render, some ("C20", "formatting a MetricValue panicked"), ["metric-value"], false⟩
+      else ⟨hex v.render == obsS, obsS, hex v.render, none, ["metric-value"], false⟩
   | _ => bad
 
 end Drv.FmtE
